@@ -68,6 +68,7 @@ type ContractFile struct {
 	Axioms  []*Axiom
 	Events  []string
 	Ghosts  []string // file-level ghost globals: "name type"
+	Guards  [][3]string // guarded_by T.field mutexfield
 }
 
 var clauseWords = map[string]bool{
@@ -75,7 +76,7 @@ var clauseWords = map[string]bool{
 	"requires": true, "ensures": true, "panics": true, "may_panic": true, "modifies": true, "assigns": true,
 	"loop": true, "ghost": true, "at": true, "trusted": true, "inline": true, "pure": true, "props": true,
 	"spec": true, "axiom": true, "event": true, "env": true, "assume": true, "decreases": true, "global": true,
-	"havoc": true, "nopanic": true, "fresh": true, "nilsafe": true, "captures": true, "var": true, "import": true, "let": true,
+	"havoc": true, "nopanic": true, "fresh": true, "nilsafe": true, "guarded_by": true, "captures": true, "var": true, "import": true, "let": true,
 }
 
 var labelRe = regexp.MustCompile(`^\[([A-Za-z0-9_.<>=+\-/ ]+)\]\s*`)
@@ -180,6 +181,15 @@ func ParseContractText(path, pkgPath, src string) (*ContractFile, error) {
 			continue
 		case "global":
 			cf.Ghosts = append(cf.Ghosts, rest)
+			continue
+		case "guarded_by":
+			// guarded_by T.field mutexfield: every access to the field needs the mutex of the same object held
+			f := strings.Fields(rest)
+			tf := strings.Split(f[0], ".")
+			if len(f) != 2 || len(tf) != 2 {
+				return nil, errf("guarded_by needs 'Type.field mutexfield'")
+			}
+			cf.Guards = append(cf.Guards, [3]string{tf[0], tf[1], f[1]})
 			continue
 		case "props":
 			if cur == nil {
